@@ -152,4 +152,89 @@ theorem bytesRepeat_zero_byte (n : Nat) : bytesRepeat [0] n = List.replicate n 0
 /-- A `for` loop whose body updates the loop-carried state `σ`. -/
 def forEach {α σ : Type} (l : List α) (init : σ) (body : σ → α → M σ) : M σ := l.foldlM body init
 
+/-! ### Strings: the file-name rules of `_dsdl_definition.py` and the name-shape guards of `CompositeType.__init__`
+
+  A Python `str` is a Lean `String` (a sequence of Unicode scalar values; lone surrogates, which a `str` can hold, are outside).
+  Operations whose CPython meaning depends on the Unicode character database are given their meaning on ASCII text only and
+  *fail* with `Err.other "unicode: …"` elsewhere (never a guess): `str.isdigit()` and `int(str)`.  The translated code guards
+  both with `str.isascii()`, so its bridge theorems hold for every string.
+-/
+
+def isAsciiChar (c : Char) : Bool := decide (c.val < 128)
+/-- `s.isascii()` (true for the empty string) -/
+def strIsascii (s : String) : Bool := s.toList.all isAsciiChar
+/-- `s.isdigit()`: on ASCII text, non-empty and every character in `0`..`9`.  (Beyond ASCII CPython consults the Unicode
+    properties Numeric_Type=Digit/Decimal: outside the fragment.) -/
+def strIsdigit (s : String) : M Bool :=
+  if strIsascii s then pure (!s.toList.isEmpty && s.toList.all Char.isDigit) else throw (.other "unicode: str.isdigit")
+/-- `not s` / `bool(s)` of a string -/
+def strIsEmpty (s : String) : Bool := s.toList.isEmpty
+/-- `len(s)`: number of code points -/
+def strLen (s : String) : Nat := s.length
+/-- `c in s` for a one-character string `c` -/
+def strContainsChar (s : String) (c : Char) : Bool := s.toList.contains c
+
+def splitChars (sep : Char) : List Char → List (List Char)
+  | [] => [[]]
+  | c :: cs =>
+    if c = sep then [] :: splitChars sep cs
+    else match splitChars sep cs with
+      | p :: ps => (c :: p) :: ps
+      | [] => [[c]]
+/-- `s.split(c)` for a one-character separator `c`: cuts at every occurrence, keeps empty pieces, `"".split(c) == [""]` -/
+def strSplitChar (s : String) (sep : Char) : List String := (splitChars sep s.toList).map String.ofList
+/-- `sep.join(l)` -/
+def strJoin (sep : String) (l : List String) : String := sep.intercalate l
+
+/-- `a, b = l` (ValueError unless `len(l) == 2`) -/
+def unpack2 {α : Type} : List α → M (α × α)
+  | [a, b] => pure (a, b)
+  | _ => throw .valueError
+/-- `a, b, c = l` -/
+def unpack3 {α : Type} : List α → M (α × α × α)
+  | [a, b, c] => pure (a, b, c)
+  | _ => throw .valueError
+/-- `a, b, c, d = l` -/
+def unpack4 {α : Type} : List α → M (α × α × α × α)
+  | [a, b, c, d] => pure (a, b, c, d)
+  | _ => throw .valueError
+
+/-- `isinstance(e, ValueError)`.  `Err.other tag` carries the name of a class of the translated package; the translator emits
+    it only after checking that the class does not derive from `ValueError`. -/
+def Err.isValueError : Err → Bool
+  | .valueError => true
+  | _ => false
+/-- `try: body  except <caught>: handler` -/
+def tryExcept {α : Type} (body : M α) (caught : Err → Bool) (handler : M α) : M α :=
+  match body with
+  | .ok a => .ok a
+  | .error e => if caught e then handler else .error e
+
+/-- C `isspace` in the "C" locale: what `int()` skips around an ASCII numeral -/
+def isSpaceAscii (c : Char) : Bool := c = ' ' || c = '\t' || c = '\n' || c = '\x0b' || c = '\x0c' || c = '\r'
+def stripAscii (l : List Char) : List Char := ((l.dropWhile isSpaceAscii).reverse.dropWhile isSpaceAscii).reverse
+/-- optional sign: (negative?, rest) -/
+def intSign : List Char → Bool × List Char
+  | [] => (false, [])
+  | c :: r => if c = '-' then (true, r) else if c = '+' then (false, r) else (false, c :: r)
+/-- digits with single underscores between them: value and number of digits (`prev`: the previous character was a digit) -/
+def intDigits : List Char → Bool → Nat → Nat → Option (Nat × Nat)
+  | [], prev, acc, k => if prev then some (acc, k) else none
+  | c :: r, prev, acc, k =>
+    if c.isDigit then intDigits r true (10 * acc + (c.toNat - '0'.toNat)) (k + 1)
+    else if c = '_' && prev then intDigits r false acc k
+    else none
+/-- `sys.get_int_max_str_digits()`: CPython (3.11+) refuses to convert longer decimal numerals (default setting) -/
+def intMaxStrDigits : Nat := 4300
+/-- `int(s)` for a `str` argument, base 10, CPython's rule on ASCII text: blanks (C `isspace`) around, an optional sign, then
+    decimal digits with single underscores between digits; leading zeros are fine; at most 4300 digits; `ValueError` otherwise.
+    On non-ASCII text CPython first maps Unicode blanks and decimal digits of other scripts to ASCII: outside the fragment. -/
+def intOfStr (s : String) : M Int :=
+  if !strIsascii s then throw (.other "unicode: int(str)")
+  else
+    let t := intSign (stripAscii s.toList)
+    match intDigits t.2 false 0 0 with
+    | none => throw .valueError
+    | some (n, k) => if k > intMaxStrDigits then throw .valueError else pure (if t.1 then -(n : Int) else (n : Int))
+
 end Py
